@@ -1,0 +1,73 @@
+//go:build verif
+
+package remote
+
+import (
+	"bufio"
+	"io"
+
+	"github.com/mutagen-io/mutagen/pkg/encoding"
+	"github.com/mutagen-io/mutagen/pkg/synchronization"
+)
+
+// This file is add-only verification scaffolding (build tag "verif"). It only
+// exports wrappers around unexported names of this package and changes no
+// behaviour of the package.
+
+// VerifStageResponseEnsureValid exposes StageResponse.ensureValid.
+func VerifStageResponseEnsureValid(r *StageResponse, paths []string) error {
+	return r.ensureValid(paths)
+}
+
+// VerifScanResponseEnsureValid exposes ScanResponse.ensureValid.
+func VerifScanResponseEnsureValid(r *ScanResponse) error {
+	return r.ensureValid()
+}
+
+// VerifTransitionResponseEnsureValid exposes TransitionResponse.ensureValid.
+func VerifTransitionResponseEnsureValid(r *TransitionResponse, expectedCount int) error {
+	return r.ensureValid(expectedCount)
+}
+
+// VerifStageRequestEnsureValid exposes StageRequest.ensureValid.
+func VerifStageRequestEnsureValid(r *StageRequest) error {
+	return r.ensureValid()
+}
+
+// VerifLastSnapshotBytes returns the baseline bytes currently stored by an
+// endpoint client (nil, false if the endpoint is not an endpoint client).
+func VerifLastSnapshotBytes(e synchronization.Endpoint) ([]byte, bool) {
+	c, ok := e.(*endpointClient)
+	if !ok {
+		return nil, false
+	}
+	return c.lastSnapshotBytes, true
+}
+
+// VerifServeOver runs the request loop of an endpoint server (serve) over an
+// already established, uncompressed stream, dispatching to the given endpoint
+// instead of one created by local.NewEndpoint. It returns when serve returns.
+func VerifServeOver(endpoint synchronization.Endpoint, stream io.ReadWriter) error {
+	outbound := bufio.NewWriterSize(stream, controlStreamUncompressedBufferSize)
+	inbound := bufio.NewReaderSize(stream, controlStreamUncompressedBufferSize)
+	server := &endpointServer{
+		endpoint: endpoint,
+		flusher:  outbound,
+		encoder:  encoding.NewProtobufEncoder(outbound),
+		decoder:  encoding.NewProtobufDecoder(inbound),
+	}
+	return server.serve()
+}
+
+// VerifClientOver creates an endpoint client over an already established,
+// uncompressed stream (no handshake, no initialize request).
+func VerifClientOver(stream io.ReadWriteCloser) synchronization.Endpoint {
+	outbound := bufio.NewWriterSize(stream, controlStreamUncompressedBufferSize)
+	inbound := bufio.NewReaderSize(stream, controlStreamUncompressedBufferSize)
+	return &endpointClient{
+		closer:  stream,
+		flusher: outbound,
+		encoder: encoding.NewProtobufEncoder(outbound),
+		decoder: encoding.NewProtobufDecoder(inbound),
+	}
+}
